@@ -81,7 +81,10 @@ def intake() -> None:
             shutil.copy(np_, os.path.join(d, "notes.md"))
             notes = open(np_).read()
         det = detect(os.path.join(d, "patch.diff"), c["id"])
-        det["against_the_checks_as_first_tried"] = first_try_text(det)
+        ft = {}
+        if os.path.exists("/tmp/wt/first_try.json"):
+            ft = json.load(open("/tmp/wt/first_try.json"))  # verdicts recorded against the checks as they were before any strengthening
+        det["against_the_checks_as_first_tried"] = ft.get(key, first_try_text(det))
         det["how_run"] = "git -C /repo apply seeded/<id>/patch.diff; /venv/bin/python -m sa.check --property <P>; git -C /repo checkout -- ."
         meta = {
             "id": key, "breaks_property": c["id"],
